@@ -9,9 +9,11 @@ import RefmtModel.Base.Digits
 namespace Refmt.Obj
 open Refmt
 
-def splitColon : Bytes → Bytes → Option (Bytes × Bytes)
+def splitAt (sep : Nat) : Bytes → Bytes → Option (Bytes × Bytes)
   | [], _ => none
-  | c :: rest, acc => if c == 31 then some (acc.reverse, rest) else splitColon rest (c :: acc)
+  | c :: rest, acc => if c == sep then some (acc.reverse, rest) else splitAt sep rest (c :: acc)
+
+def splitColon : Bytes → Bytes → Option (Bytes × Bytes) := splitAt 31
 
 /-- strconv.ParseInt(s, 10, 64) restricted to what the library accepts (no leading '+') -/
 def parseInt64 (s : Bytes) : Option Int :=
@@ -34,6 +36,7 @@ def trM : Nat → Val → Option Val
   | 8, .struct [v] => some v
   | 9, .struct [v] => some v
   | 10, .byteArr b => some (.str b)
+  | 11, .struct [.str a, .str b] => some (.str (a ++ [30] ++ b))
   | _, _ => none
 
 def trU : Nat → Val → Option Val
@@ -47,6 +50,7 @@ def trU : Nat → Val → Option Val
   | 8, v => some (.struct [v])
   | 9, v => some (.struct [v])
   | 10, .str s => if s.length == 4 then some (.byteArr s) else none
+  | 11, .str s => (splitAt 30 s []).map fun (a, b) => .struct [.str a, .str b]
   | _, _ => none
 
 def trLib : Trs := ⟨trM, trU⟩
